@@ -309,7 +309,7 @@ fn cmp_i(a: &ITrace, b: &ITrace, what: &str) -> Result<(), String> {
 
 pub fn run(ctx: &mut Ctx) {
     let quick = ctx.quick();
-    let fams = dfam::build(quick);
+    let fams = dfam::build_depth(quick, 0);
     let base_env = Env::new();
     let masks: [(&str, u32); 4] = [("-avx2", cpu::MASK_AVX2), ("-avx2-sse", cpu::MASK_AVX2 | cpu::MASK_SSE | cpu::MASK_SSE42), ("-pclmulqdq", cpu::MASK_PCLMULQDQ), ("all off", cpu::MASK_AVX2 | cpu::MASK_SSE | cpu::MASK_SSE42 | cpu::MASK_PCLMULQDQ | cpu::MASK_AVX512)];
     let mut genv: Vec<(String, Env)> = vec![];
@@ -332,7 +332,7 @@ pub fn run(ctx: &mut Ctx) {
     let mut zero_env = Env::new();
     zero_env.guarded_alloc = Some(0);
     zero_env.out_fill = Some(0);
-    let sel = dfam::Sel { tiny: true, shapes: true, big: true, sweep: !quick, shape_cfg_stride: if quick { 9 } else { 1 } };
+    let sel = dfam::Sel { tiny: true, shapes: true, big: true, sweep: !quick, shape_cfg_stride: if quick { 9 } else { 3 } };
     dfam::for_each(ctx, &fams, sel, |ctx, it| {
         if quick && it.fam == "tiny" && (it.sched_idx + it.inp.data.len() + it.cfg.level as usize) % 8 != 0 {
             return;
